@@ -21,6 +21,13 @@ CHECKS["C06"] = dict(level="model_checking", design="DESIGN.md §6 C06",
          "The spec's contribution is this post-condition; detection rests on the degenerate universe.",
     note="Termination is a 5 s watchdog. Schemas that do not decode are skipped. The reference-structure encoder is trusted.")
 
+CHECKS["C17"] = dict(level="model_checking", design="DESIGN.md §6 C17, Appendix A (error names)",
+    technique="TLA+ operators AllowedNames / OffenderNames (SchemaErrors.tla) evaluated by TLC on error lists recorded from both entry points (trace validation)",
+    text="For each recorded (schema, instance, root path) the spec computes the set of names an error may carry and, for the nesting class, the set of offending members; "
+         "TLC checks every recorded error name, the 422 composite, message-set equality between the one-shot error and the result, absence of duplicates and verdict/error consistency.",
+    note="Location accuracy is only claimed (and checked) for properties, patternProperties, additionalProperties, tuple items and additionalItems; under single-schema items index segments may be missing. "
+         "Trusted: harness facts, percent-encoding of names.")
+
 NOT_YET = {}
 
 
